@@ -21,6 +21,7 @@ package main
 // correspondence on such a tree: Ser.serialize selects the json.Marshal model).
 
 import (
+	"flag"
 	"fmt"
 	"go/ast"
 	"go/parser"
@@ -389,7 +390,62 @@ func serFile(repo string, files map[string]*ast.File, name string) (*ast.File, e
 	return f, nil
 }
 
+// serNames: every definition of GenSer.v that serExtras is responsible for, with the neutral
+// definition used when the anchor is lost and no earlier generated file exists.
+var serNames = []string{"g_serialize_uses_json_marshal", "g_ser_layout", "g_ser_tags_block_is_reference",
+	"g_ser_esc_short", "g_ser_esc_is_ctl", "g_ser_ctl_prefix", "g_ser_hex_digits"}
+
+func serNeutral(name string) string {
+	if name == "g_serialize_uses_json_marshal" {
+		return "Definition g_serialize_uses_json_marshal : bool :=\n  false."
+	}
+	for _, d := range strings.Split(serDefaultTable, "\nDefinition ") {
+		d = strings.TrimPrefix(d, "Definition ")
+		if strings.HasPrefix(d, name+" ") {
+			return "Definition " + d
+		}
+	}
+	return ""
+}
+
+// serExtras never leaves GenSer.v without one of its definitions: when a part of
+// Serialize or of the escaper is no longer in the shape the translator reads, the tie is
+// reported as broken (the error list) and the last generated definition is kept (or, when
+// there is none, the NIP-01 table), so that Ser.v and Check/C01Check.v still compile and
+// the oracle still judges the implementation.
 func serExtras(repo string, files map[string]*ast.File) (map[string][]matched, []string) {
+	out, errs := serExtrasRead(repo, files)
+	have := map[string]bool{}
+	for _, m := range out[serOut] {
+		for _, n := range serNames {
+			if strings.Contains(m.Coq, "Definition "+n+" ") {
+				have[n] = true
+			}
+		}
+	}
+	dir := ""
+	if f := flag.Lookup("out"); f != nil {
+		dir = f.Value.String()
+	}
+	for _, n := range serNames {
+		if have[n] {
+			continue
+		}
+		if len(errs) == 0 {
+			errs = append(errs, "anchor "+n+" (message.go): not produced")
+		}
+		if old := oldDefinition(filepath.Join(dir, serOut+".v"), n); old != "" {
+			out[serOut] = append(out[serOut], matched{n, "message.go", "", 0,
+				"STALE: anchor no longer found in the source; last generated definition kept", old})
+		} else {
+			out[serOut] = append(out[serOut], matched{n, "message.go", "", 0,
+				"STALE: anchor no longer found in the source and no earlier definition; neutral (NIP-01) definition", serNeutral(n)})
+		}
+	}
+	return out, errs
+}
+
+func serExtrasRead(repo string, files map[string]*ast.File) (map[string][]matched, []string) {
 	out := map[string][]matched{}
 	f, err := serFile(repo, files, "message.go")
 	if err != nil {
